@@ -318,7 +318,10 @@ def decodeNBytes (n : Int) (bs : Bytes) : R (PyVal × Bytes) := do
 
 def encodeFixedStr (size : Nat) (lenK : IntK) (v : PyVal) : R Bytes :=
   match v with
-  | .str cs => do
+  | .str cs0 =>
+      -- `value = value[: cls.size]`: strings longer than the tag are truncated
+      let cs := cs0.take size
+      do
       let l ← packInt lenK (.int cs.length)
       match Text.encode .latin1 cs with
       | some d => .ok (l ++ d ++ zeros (size - cs.length))
